@@ -6,6 +6,6 @@
 EXTENDS MC_Faults
 lvCallChoices == {[c \in mcCallers |-> Kinds[f[c]]] :
                     f \in {g \in [mcCallers -> {1, 3}] : \A c \in mcCallers : c > 1 => g[c - 1] <= g[c]}}
-lvInitChoices == {<<DT(a), DA(1)>> : a \in 1..2} \cup {<<DA(1), DT(1)>>}
+lvInitChoices == {<<DT(1), DA(1)>>, <<DA(2), DT(1)>>}
 lvLatePool == {[tag |-> "dL", op |-> "Publish", params |-> <<>>, n |-> 1]}
 =============================================================================
